@@ -504,6 +504,13 @@ func Mk(op Op, sort Sort, args ...*Term) *Term {
 			return args[0]
 		}
 	}
+	switch op {
+	case OpAdd, OpMul, OpBAnd, OpBOr, OpBXor, OpEq, OpFAdd, OpFMul, OpFEq:
+		// canonical operand order for commutative operators
+		if len(args) == 2 && args[0].id > args[1].id {
+			args = []*Term{args[1], args[0]}
+		}
+	}
 	return intern(op, sort, 0, "", args...)
 }
 
